@@ -49,6 +49,13 @@ class Check(HCheck):
                 except Exception as e:
                     ctx.fail("query-failed", "pages of webentity %r with prefixes %s failed: %s: %s" % (wid, _pl(order), type(e).__name__, e))
                     return
+                try:
+                    goti = [(d["lru"], d["crawled"]) for d in t.get_webentity_pages(wid, iter(list(qorder)))]
+                except Exception as e:
+                    goti = "%s: %s" % (type(e).__name__, e)
+                if goti != got:
+                    ctx.fail("prefixes-as-iterator", "pages of webentity %r with the prefixes handed over as a one-shot iterator: %s; as a list: %s" % (wid, goti if isinstance(goti, str) else _sh(goti), _sh(got)))
+                    return
                 if len(set(x[0] for x in got)) != len(got):
                     ctx.fail("duplicate-page", "pages of webentity %r (prefixes %s) list a page twice: %s" % (wid, _pl(order), _sh(got)))
                     return
